@@ -286,7 +286,9 @@ func (cli *Client) EnrollContext(c net.Conn, ctx any) (Conn, error) {
 		gc.Close() //nolint:errcheck
 		return nil, err
 	}
-	<-connOpened
+	if err = el.awaitRegistration(gc, connOpened); err != nil {
+		return nil, err
+	}
 
 	return gc, nil
 }
